@@ -342,6 +342,9 @@ class _CommonVisitors(visitor.NodeVisitor):
         ":meta private:"
         typing.typecheck(field, (ast.Identifier, ast.String), "field")
         typing.typecheck(substr, ast.String, "substring")
+        if isinstance(field, ast.Null) or isinstance(substr, ast.Null):
+            # SQLAlchemy only accepts `=` and `!=` with NULL:
+            raise ex.TypeException(func, "null")
 
         identifier = self.visit(field)
         substring = self.visit(substr)
